@@ -11,12 +11,12 @@ Definition is_lower (c : Z) : bool := (97 <=? c) && (c <=? 122).
 Definition is_digit (c : Z) : bool := (48 <=? c) && (c <=? 57).
 Definition us : Z := 95.   (* "_" *)
 
-(* str.lower() restricted to what matters for check_name: ASCII letters.  Every other code point is left alone: the
-   Specification's identifier syntax is ASCII; see the remark on U+212A in Props/C05.v. *)
+(* str.lower() restricted to what matters for check_name: the name consists of ASCII letters, digits and underscores
+   when it is lowered (the characters are checked first). *)
 Definition lowc (c : Z) : Z := if is_upper c then c + 32 else c.
 Definition lower (s : str) : str := map lowc s.
 
-(* _VALID_FIRST_CHARACTERS_OF_NAME / _VALID_CONTINUATION_CHARACTERS_OF_NAME, tested on the lowered name *)
+(* _VALID_FIRST_CHARACTERS_OF_NAME / _VALID_CONTINUATION_CHARACTERS_OF_NAME *)
 Definition first_ok (c : Z) : bool := is_lower c || is_upper c || (c =? us).
 Definition cont_ok (c : Z) : bool := first_ok c || is_digit c.
 
@@ -124,9 +124,10 @@ Definition is_reserved (s : str) : bool :=
   || pat_prefix_digit w_lpt s
   || pat_underscores s.
 
-(* check_name: true = no exception *)
+(* check_name: true = no exception.  The characters are tested on the original spelling, the disallowed strings and
+   patterns on the lowered name. *)
 Definition name_ok (s : str) : bool :=
-  match lower s with
+  match s with
   | [] => false
-  | c :: r => first_ok c && forallb cont_ok (c :: r) && negb (is_reserved (c :: r))
+  | c :: r => first_ok c && forallb cont_ok (c :: r) && negb (is_reserved (lower (c :: r)))
   end.
